@@ -2,10 +2,17 @@
 use crate::gen::Case;
 use crate::rng::Rng;
 
-pub fn n_cases(_prop: &str, _tier: &str) -> usize {
-    0
+pub fn n_cases(prop: &str, tier: &str) -> usize {
+    let quick = tier == "quick";
+    match prop {
+        "C09" => if quick { 240 } else { 5000 },
+        _ => 0,
+    }
 }
 
-pub fn gen_case(prop: &str, _tier: &str, _rng: &mut Rng, _idx: usize) -> Case {
-    panic!("no generator for property {prop}");
+pub fn gen_case(prop: &str, tier: &str, rng: &mut Rng, idx: usize) -> Case {
+    match prop {
+        "C09" => crate::gen_c09::c09(rng, tier, idx),
+        _ => panic!("no generator for property {prop}"),
+    }
 }
